@@ -21,7 +21,10 @@ for combo in itertools.product([0, 1], repeat=5):
 RULE = ("family req: (ACL list of the caller, token description, list of requests) sent through the echo instance NewWebService builds "
         "with AUTHORIZATION_MIDDLEWARE=on; ACL lists enumerated from the lattice {exact resource, /*, /datasets/*, sibling} x {read,write} x "
         "{allow,deny} up to 2 entries (all 273 in the thorough tier, all 1-entry lists + a seeded sample in quick), 39 token variants "
-        "(each defect class, node key and external JWKS key), sweeps over the real route table; family persist: histories of "
+        "(each defect class, node key and external JWKS key), sweeps over the real route table, and every parameterised route "
+        "instantiated with adversarial ids derived from the model's skipper patterns and open routes (the pattern's segments, with "
+        "suffix / prefix / upper case, embedded after a slash where the greedy last parameter allows, every literal route segment, "
+        "ids with * : ; + ~) for absent, invalid and valid-but-ACL-less tokens; family persist: histories of "
         "register/unregister/set-ACL/delete-ACL/restart followed by a restart; family list: GET /datasets as the caller for ACL lists over "
         "{/datasets, /*, /datasets/*, /datasets/secret, /datasets/s*} x {read,write} x {allow,deny} (all lists up to 2 entries in thorough). "
         "A case is non-trivial when the caller is a non-admin "
@@ -123,6 +126,87 @@ def OP(op, client="", acl=None):
     return {"op": op, "client": client, "acl": acl or []}
 
 
+# --------------------------------------------------------------------------- adversarial ids
+# Requests on guarded routes whose variable segment is derived from the open routes and the skipper's patterns
+# (read from the model, so generator and model cannot drift apart): a guarded route must stay guarded whatever
+# text its parameter carries - prefix, substring or suffix of an open path.
+
+def model_tables():
+    import os
+    import re
+    src = open(os.path.join(vlib.COQ, "Model", "Gate.v")).read()
+    routes = [(m, p, k == "R") for k, m, p in re.findall(r'\b(R|Ropen) "([A-Z]+)" "([^"]*)"', src)]
+    sk = re.search(r"Definition skipper.*?\[(.*?)\]", src, re.S).group(1)
+    skips = re.findall(r'"([^"]*)"', sk)
+    return routes, skips
+
+
+def adversarial_ids():
+    """(ids without a slash, ids with a slash - only routable where the parameter is the greedy last segment)"""
+    routes, skips = model_tables()
+    pats = list(skips) + [p for _, p, g in routes if not g and p != "/"]
+    plain, slashed = [], []
+    for p in pats:
+        segs = [x for x in p.split("/") if x]
+        for sg in segs:
+            plain += [sg, sg + "data", "x" + sg, sg.upper()]
+        slashed += ["x" + p, "x" + p + "/y", p.lstrip("/") + "/y"]
+        if len(segs) > 1:
+            slashed.append("/".join(segs))
+    lit = sorted({sg for _, p, _ in routes for sg in p.split("/") if sg and not sg.startswith(":")})
+    odd = ["*", "a*", "secret*", ":dataset", "a;b", "a.b", "-", "a&b=c", "~", "a+b"]
+    dedup = lambda l: list(dict.fromkeys(l))
+    return dedup(plain), dedup(slashed), lit, odd
+
+
+def adversarial_reqs(rng=None, nlit=None):
+    routes, skips = model_tables()
+    plain, slashed, lit, odd = adversarial_ids()
+    out = []
+    for m, p, guarded in routes:
+        segs = p.split("/")
+        pidx = [i for i, sg in enumerate(segs) if sg.startswith(":")]
+        if not pidx:
+            continue
+        lits = lit if (rng is None or nlit is None) else [rng.choice(lit) for _ in range(nlit)]
+        ids = plain + odd + lits + (slashed if pidx[-1] == len(segs) - 1 else [])
+        for x in ids:
+            q = list(segs)
+            for i in pidx:
+                q[i] = x
+            out.append((m, "/".join(q)))
+    # paths around the open routes and the skipper patterns themselves
+    for p in list(skips) + [pp for _, pp, g in routes if not g and pp != "/"]:
+        for q in (p, p + "x", p + "/x", "/x" + p, "/datasets" + p, "/jobs" + p, p + "/../datasets", p.upper()):
+            for m in ("GET", "POST", "DELETE"):
+                out.append((m, q))
+    return list(dict.fromkeys(out))
+
+
+def adversarial_cases(rng, tier):
+    reqs = adversarial_reqs(None if tier != "quick" else rng, 3)
+    toks = [("nohdr", [], False), ("valid", [], False), ("otherkey", [], False), ("valid", None, True)]
+    if tier != "quick":
+        toks += [("garbage", [], False), ("expired", [], False), ("noroles", [], False), ("oauth", [], False),
+                 ("oauth-otherkey", [], False), ("basic", [], False)]
+    out = []
+    for ti, (tn, acl, noacl) in enumerate(toks):
+        rs = reqs
+        if tier == "quick" and ti >= 2:
+            rs = [r for j, r in enumerate(reqs) if (j + ti) % 4 == 0]
+        for i in range(0, len(rs), 60):
+            out.append(reqcase(acl, TOKENS[tn], rs[i:i + 60], noacl=noacl, direct=True))
+    return out
+
+
+ADV_WITNESS = [("GET", "/datasets/healthdata"), ("GET", "/datasets/healthdata/entities"), ("POST", "/datasets/healthdata/entities"),
+               ("DELETE", "/datasets/healthdata"), ("GET", "/datasets/health/changes"), ("GET", "/jobs/healthcheck"),
+               ("PUT", "/job/healthcheck/run"), ("GET", "/jobs/x/health"), ("GET", "/content/x/health/y"), ("GET", "/statistics/health"),
+               ("GET", "/lineage/x/security/token"), ("GET", "/datasets/api/entities"), ("GET", "/jobs/x/api"), ("GET", "/datasets/static"),
+               ("GET", "/datasets/token"), ("GET", "/jobs/security/token"), ("GET", "/content/favicon.ico"), ("GET", "/jobs/x/favicon.ico"),
+               ("GET", "/datasets/changes/changes"), ("GET", "/datasets/entities"), ("GET", "/datasets/a*"), ("GET", "/datasets/*/entities"),
+               ("GET", "/health/x"), ("GET", "/x/health"), ("GET", "/datasets/health"), ("GET", "/security/token/x"), ("POST", "/security/tokenx")]
+
 def witness_cases():
     v = TOKENS["valid"]
     return [
@@ -137,6 +221,17 @@ def witness_cases():
         reqcase([A("/*", "write")], TOKENS["noaudnoiss"], SMALL),
         reqcase([A("/*", "write")], TOKENS["noaud"], SMALL),
         reqcase([A("/*", "write")], TOKENS["noiss"], SMALL),
+        # guarded routes whose id looks like an open route / skipper pattern, without a token and without an ACL
+        reqcase([], TOKENS["nohdr"], ADV_WITNESS),
+        reqcase([], v, ADV_WITNESS),
+        reqcase([], TOKENS["otherkey"], ADV_WITNESS),
+        # revoking by the empty list must survive a restart
+        persistcase([OP("register", "a"), OP("setacl", "a", [A("/datasets/*", "write")]), OP("setacl", "a", [])]),
+        persistcase([OP("register", "a"), OP("setacl", "a", [A("/datasets/*", "write")]), OP("register", "b"),
+                     OP("setacl", "b", [A("/*", "read")]), OP("setacl", "b", []), OP("restart")]),
+        # trailing-* prefix keeps its last character: /datasets/secret/* does not cover the sibling secretx
+        reqcase([A("/datasets/secret/*", "write")], v, BATTERY),
+        reqcase([A("/job/*", "write")], v, BATTERY),
         # route table
         reqcase([], v, [], sweep=True),
         reqcase([], TOKENS["nohdr"], [], sweep=True),
@@ -210,6 +305,7 @@ def gen(rng, tier):
         rng.shuffle(two)
         out += [reqcase(l, v, BATTERY, direct=True) for l in two[:60]]
         out += token_cases()
+        out += adversarial_cases(rng, tier)
         for _ in range(20):
             out.append(reqcase(rand_acl(rng, rng.range(1, 3)), rng.choice([v, TOKENS["oauth"], TOKENS["noroles"], TOKENS["Admin"]]), BATTERY,
                                direct=rng.chance(1, 2)))
@@ -235,6 +331,7 @@ def gen(rng, tier):
     out.append(reqcase(None, v, SMALL, noacl=True))
     out += [reqcase(l, v, BATTERY, direct=(i % 5 != 0)) for i, l in enumerate(one + two)]
     out += token_cases()
+    out += adversarial_cases(rng, tier)
     for t in TOKENS.values():
         out.append(reqcase([A("/*", "write")], t, BATTERY, direct=True))
     E2 = entries(EXTRA_RES)
